@@ -76,37 +76,84 @@ def _test(node: ast.expr, want: bool) -> list[list[tuple[str, bool]]]:
 
 
 def match_as_ifs(m: ast.Match):
-    """`match s: case 'a': .. case 'b' | 'c': .. case _: ..` over value patterns only, as the equivalent if / elif chain on
-    `s == 'a'`; None when a case binds names or destructures (left opaque)"""
+    """`match s: case 'a': .. case 'b' | 'c': .. case C(): .. case C(attr=name) [as x]: .. case _: ..` as the equivalent
+    if / elif chain on `s == 'a'` / `isinstance(s, C)` (keyword captures become assignments at the head of the arm, keyword
+    value sub-patterns become `s.attr == v`); None when a case destructures positionally or binds inside an or-pattern
+    (left opaque)"""
     if not isinstance(m.subject, (ast.Name, ast.Attribute)):
         return None
+    subj = m.subject
+
+    def one(p_):
+        """-> (test | None for always, [binding statements]) or False"""
+        if isinstance(p_, ast.MatchValue) and isinstance(p_.value, (ast.Constant, ast.Attribute)):
+            return ast.Compare(left=subj, ops=[ast.Eq()], comparators=[p_.value]), []
+        if isinstance(p_, ast.MatchSingleton):
+            return ast.Compare(left=subj, ops=[ast.Is()], comparators=[ast.Constant(p_.value)]), []
+        if isinstance(p_, ast.MatchAs) and p_.pattern is None:
+            if p_.name is None:
+                return None, []
+            return None, [ast.Assign(targets=[ast.Name(id=p_.name, ctx=ast.Store())], value=subj)]
+        if isinstance(p_, ast.MatchAs) and p_.pattern is not None:
+            r = one(p_.pattern)
+            if r is False:
+                return False
+            return r[0], r[1] + [ast.Assign(targets=[ast.Name(id=p_.name, ctx=ast.Store())], value=subj)]
+        if isinstance(p_, ast.MatchClass) and not p_.patterns and isinstance(p_.cls, (ast.Name, ast.Attribute)):
+            tests = [ast.Call(func=ast.Name(id='isinstance', ctx=ast.Load()), args=[subj, p_.cls], keywords=[])]
+            binds = []
+            for attr, sub in zip(p_.kwd_attrs, p_.kwd_patterns):
+                field = ast.Attribute(value=subj, attr=attr, ctx=ast.Load())
+                if isinstance(sub, ast.MatchAs) and sub.pattern is None:
+                    if sub.name is not None:
+                        binds.append(ast.Assign(targets=[ast.Name(id=sub.name, ctx=ast.Store())], value=field))
+                elif isinstance(sub, ast.MatchValue) and isinstance(sub.value, (ast.Constant, ast.Attribute)):
+                    tests.append(ast.Compare(left=field, ops=[ast.Eq()], comparators=[sub.value]))
+                elif isinstance(sub, ast.MatchSingleton):
+                    tests.append(ast.Compare(left=field, ops=[ast.Is()], comparators=[ast.Constant(sub.value)]))
+                else:
+                    return False
+            return (tests[0] if len(tests) == 1 else ast.BoolOp(op=ast.And(), values=tests)), binds
+        return False
+
     arms = []
     for case in m.cases:
         pats = case.pattern.patterns if isinstance(case.pattern, ast.MatchOr) else [case.pattern]
         tests = []
+        binds: list = []
         wild = False
         for p_ in pats:
-            if isinstance(p_, ast.MatchValue) and isinstance(p_.value, (ast.Constant, ast.Attribute)):
-                tests.append(ast.Compare(left=m.subject, ops=[ast.Eq()], comparators=[p_.value]))
-            elif isinstance(p_, ast.MatchSingleton):
-                tests.append(ast.Compare(left=m.subject, ops=[ast.Is()], comparators=[ast.Constant(p_.value)]))
-            elif isinstance(p_, ast.MatchAs) and p_.pattern is None and p_.name is None:
+            r = one(p_)
+            if r is False or (r[1] and len(pats) > 1):
+                return None
+            if r[0] is None:
                 wild = True
             else:
-                return None
+                tests.append(r[0])
+            binds = r[1]
+        # C() | D() is isinstance(s, (C, D))
+        if len(tests) > 1 and all(isinstance(t, ast.Call) for t in tests):
+            tests = [ast.Call(func=ast.Name(id='isinstance', ctx=ast.Load()),
+                              args=[subj, ast.Tuple(elts=[t.args[1] for t in tests], ctx=ast.Load())], keywords=[])]
         test = None if wild else (tests[0] if len(tests) == 1 else ast.BoolOp(op=ast.Or(), values=tests))
         if case.guard is not None:
+            if binds:
+                return None                      # a guard may read the captures: keep opaque
             test = case.guard if test is None else ast.BoolOp(op=ast.And(), values=[test, case.guard])
-        arms.append((test, case.body))
+        for b_ in binds:
+            ast.copy_location(b_, case.pattern)
+        arms.append((test, binds + list(case.body), case.pattern))
     tail: list[ast.stmt] = []
-    for test, body in reversed(arms):
+    for test, body, at in reversed(arms):
         if test is None:
             tail = list(body)
         else:
             node = ast.If(test=test, body=list(body), orelse=tail)
-            ast.copy_location(node, body[0])
+            ast.copy_location(node, at)
             ast.fix_missing_locations(node)
             tail = [node]
+    for st in tail:
+        ast.fix_missing_locations(st)
     return tail
 
 
@@ -205,8 +252,22 @@ def specialise(stmts, subject: str, member: str | None, enum: str):
                 if sub and isinstance(sub[-1], (ast.Return, ast.Raise, ast.Continue, ast.Break)):
                     return out
                 continue
-            out.append(s)
+            out.append(fold(s))
             if isinstance(s, (ast.Return, ast.Raise, ast.Continue, ast.Break)):
                 return out
         return out
+
+    def fold(s):
+        """comparisons of the subject that stand outside a test (`is_x = subject == enum.X`) are decided as well"""
+        if not any(isinstance(n, ast.Compare) and val(n) is not None for n in ast.walk(s)):
+            return s
+        import copy
+
+        class F(ast.NodeTransformer):
+            def visit_Compare(self, n):
+                v = val(n)
+                if v is None:
+                    return self.generic_visit(n)
+                return ast.copy_location(ast.Constant(value=v), n)
+        return ast.fix_missing_locations(F().visit(copy.deepcopy(s)))
     return go(list(stmts))
